@@ -1,6 +1,6 @@
 """Which rules exist, which properties are claimed, their floors and evidence texts."""
 
-RULE_MODULES = ['descent', 'null', 'live', 'gate', 'alloc', 'immobile', 'reset', 'pool', 'stale', 'layer', 'twin', 'listsearch', 'steps', 'segflow', 'unchecked', 'panicsite']
+RULE_MODULES = ['descent', 'null', 'live', 'gate', 'alloc', 'immobile', 'reset', 'pool', 'stale', 'layer', 'twin', 'listsearch', 'steps', 'segflow', 'unchecked', 'panicsite', 'links']
 
 # rules whose instance set legitimately differs between debug and release-like MIR
 CONFIG_DEPENDENT_RULES = {'PANICSITE'}
@@ -212,8 +212,13 @@ functions - 27 functions present in at least two copies) has the same canonical 
 its clone/copy abstracted, debug assertions, names of locals, generic arguments ignored); every left/right function
 pair (rotate_*, insert_as_*, expire_*, find_*_minimum, index_after/before) is an exact mirror image; in every if/else
 chain whose conditions are mirror images (side predicates x == p.left / x == p.right, l != EMPTY_REF / r != EMPTY_REF)
-the arms are mirror images (10 chains per copy) [TWIN]. NOT decided: that the consistent, symmetric algorithm restores
+the arms are mirror images (10 chains per copy) [TWIN]; child and parent links are written in pairs (across calls:
+pending halves are completed by the callers, nothing stays pending at a complete transaction) [LINKPAIR]; the sentinel
+slot is linked by exactly one helper and unlinked by exactly one, the unlink post-dominates the link in the removal,
+NIL_INDEX is never released, rooted or stored as a parent, and the pool's vectors are mutated only by the pool's own
+functions, so the slot reserved at construction is never handed out [NILSTATE, POOL]; a freshly linked non-root node is
+red [COLOR]. NOT decided: that the consistent, symmetric algorithm restores
 the colour invariants (needs a proof or exploration of tree shapes: another technique family); a change made
 identically in all copies and both mirrors is invisible to TWIN; the height bound is a consequence and assumed.""",
      ["the shared algorithm is the textbook red-black repair (not re-verified)"],
-     {'TWIN': 50})
+     {'TWIN': 50, 'LINKPAIR': 30, 'NILSTATE': 3, 'COLOR': 3, 'POOL': 3})
